@@ -44,7 +44,7 @@
 (***************************************************************************)
 EXTENDS Integers, Sequences, FiniteSets, TLC, Json
 
-CONSTANTS Part,     \* the families of cases this run enumerates: a subset of {"scalar", "lists", "explicit", "for", "tpl-a", "tpl-b"}
+CONSTANTS Part,     \* the families of cases this run enumerates: a subset of {"scalar", "lists", "explicit", "for", "registry", "tpl-a", "tpl-b"}
           Size      \* "quick" or "thorough": the bound of the generator grammar
 
 VARIABLES case, go, out
@@ -393,6 +393,19 @@ T1(doc) ==
 FromTemplate(doc, ov) == LET a == T2(doc, ov) IN IF ~IsErr(a) THEN a ELSE LET b == T1(doc) IN IF ~IsErr(b) THEN b ELSE a
 
 ----------------------------------------------------------------------------
+(* CobaRegistry.register / @coba_registration (registry.py 14-19, 52-60): the first class registered *)
+(* under a name stays; registering the same class again is accepted, another class is rejected.     *)
+RegNames   == {"X03a", "X03b"}
+RegClasses == {"Any", "One"}
+RECURSIVE RunRegister(_, _, _)
+RunRegister(ops, reg, res) ==
+  IF ops = <<>> THEN [final |-> reg, results |-> res]
+  ELSE LET nm == ops[1][1]  cl == ops[1][2] IN
+       IF reg[nm] = "none" THEN RunRegister(Tail(ops), [reg EXCEPT ![nm] = cl], Append(res, "ok"))
+       ELSE RunRegister(Tail(ops), reg, Append(res, IF reg[nm] = cl THEN "ok" ELSE "error"))
+Registered(ops) == RunRegister(ops, [n \in RegNames |-> "none"], <<>>)
+
+----------------------------------------------------------------------------
 (* GENERATOR: the bounded grammars                                          *)
 Thorough == Size = "thorough"
 Names == {"Any", "One", "Boom", "Zed"}
@@ -503,6 +516,8 @@ Overrides == {<<>>, << <<S("$s"), O1("Src", I(9))>> >>, << <<S("$f"), L(<<O1("Fl
 Init ==
   /\ go = FALSE /\ out = <<>>
   /\ \/ \E r \in RecipeCases : case = [kind |-> "recipe", r |-> r]
+     \/ /\ "registry" \in Part
+        /\ \E k \in 1..4 : \E ops \in [1..k -> RegNames \X RegClasses] : case = [kind |-> "registry", ops |-> ops]
      \/ \E envs \in EnvLists :
              \E ds \in (IF "$s" \in Refs(envs) THEN DefsS ELSE {<<>>}) :
              \E df \in (IF "$f" \in Refs(envs) THEN DefsF ELSE {<<>>}) :
@@ -515,6 +530,8 @@ Init ==
 Eval(c) ==
   IF c.kind = "recipe"
   THEN [kind |-> "recipe", r |-> c.r, v1 |-> Make1(c.r), v2 |-> Make2(c.r, TRUE), v2n |-> Make2(c.r, FALSE)]
+  ELSE IF c.kind = "registry"
+  THEN LET r == Registered(c.ops) IN [kind |-> "registry", ops |-> c.ops, results |-> r.results, final |-> r.final]
   ELSE [kind |-> "template", vars |-> c.doc.vars, envs |-> c.doc.envs, ov |-> c.ov,
         t1 |-> T1(c.doc), t2 |-> T2(c.doc, c.ov), ft |-> FromTemplate(c.doc, c.ov)]
 
@@ -635,6 +652,15 @@ SeedOrder ==
     LET raw == Envs(T2Raw([vars |-> out.vars, envs |-> out.envs], out.ov).v).v IN
     /\ \A i \in 1..(Len(out.t2.v) - 1) : SeedOfPipeline(out.t2.v[i]) <= SeedOfPipeline(out.t2.v[i + 1])
     /\ out.t2.v = BySeeds(raw, {SeedOfPipeline(raw[i]) : i \in DOMAIN raw})
+
+(* the registry binds a name to the class of the first registration that names it, for good *)
+FirstWins == go /\ out.kind = "registry" =>
+  \A n \in RegNames :
+    LET idx == {i \in DOMAIN out.ops : out.ops[i][1] = n} IN
+    IF idx = {} THEN out.final[n] = "none"
+    ELSE LET f == CHOOSE i \in idx : \A j \in idx : i <= j IN
+         /\ out.final[n] = out.ops[f][2]
+         /\ \A i \in idx : (out.results[i] = "ok") = (out.ops[i][2] = out.ops[f][2])
 
 (* from_template is the V2 reading whenever V2 accepts the document *)
 Fallback == IsTemplateCase => /\ (~IsErr(out.t2) => out.ft = out.t2)
